@@ -55,7 +55,14 @@ impl BlockFormatter for BlockIndentRemover {
             }
             None => 0,
         };
-        let mut current_pos = start_byte_pos + 1;
+        // The body starts on the line after the one the removal position is on. (The position
+        // is normally a line break itself, but when a removed child was merged into the opening
+        // half it can sit in the middle of a line, possibly in front of a multi-byte character.)
+        let mut current_pos = match find_next_line_break_pos(content, bytes, start_byte_pos, false)
+        {
+            Some(pos) => pos + 1,
+            None => return vec![],
+        };
         let first_indent_len = get_indent_len(content, current_pos);
         let indent_len = first_indent_len.saturating_sub(indent_ofs);
 
